@@ -164,6 +164,14 @@ theorem step_inv (s : Sys) (op : Op) (h : SysInv s) : SysInv (s.step op) := by
     refine put_inv_flags s x _ h (closeConn_inv _ (h x).1) ?_ ?_
     · simp only [closeConn]; split <;> rfl
     · simp only [closeConn]; split <;> rfl
+  | closeApi x =>
+    simp only [Sys.step]
+    refine put_inv_flags s x _ h (closeApi_inv _ (h x).1) ?_ ?_
+    · simp only [closeApi]; split <;> rfl
+    · simp only [closeApi]; split <;> rfl
+  | abort x =>
+    simp only [Sys.step]
+    exact put_inv_flags s x _ h (abortCall_inv _ (h x).1) rfl rfl
 
 theorem run_inv (ops : List Op) : SysInv (Sys.init.run ops) := by
   unfold Sys.run
